@@ -554,6 +554,12 @@ def json_Marshal(ex, st, args, ctx):
     v = args[0]
     if not isinstance(v, Iface):
         raise Unsupported('json.Marshal of %r' % (v,))
+    while isinstance(v.v, Ptr) and ex.under(v.t)['kind'] == 'ptr' and ex.under(deref_type(ex, v.t))['kind'] == 'ptr':
+        inner = ex.load(st, v.v)          # **T -> *T
+        if not isinstance(inner, Ptr):
+            o = st.alloc(JsonDoc(-1, 'null'))
+            return (Slice(o, 0, 4, 0), NIL)
+        v = Iface(deref_type(ex, v.t), inner)
     m = find_method(ex, v.t, 'MarshalJSON')
     if m is not None and m in ex.funcs:
         return ('tailcall', m, [v.v])
@@ -681,6 +687,8 @@ def i_proof_eq(ex, st, args, ctx):
 def proof_WriteRawTo(ex, st, args, ctx):
     used('groth16 Proof.WriteRawTo: 8 x 32-byte big-endian affine coordinates A.x A.y B.x1 B.x0 B.y1 B.y0 C.x C.y (gnark-crypto raw encoding; coordinates < 2^254 so flag bits are 0)')
     p, w = args
+    if p.coords is None:
+        p.coords = [z3.BitVec(ex.newsym('proofcoord'), BIG) for _ in range(8)]
     cells = []
     for c in p.coords:
         cells.extend(byte_cells_of_bv(c, 32))
@@ -864,7 +872,9 @@ def groth16_Prove(ex, st, args, ctx):
         return (NIL, Iface(-1, Opaque('error', msg=S('key mismatch'), origin=ctx['pos'])))
     c = z3.Bool(ex.newsym('witness_satisfies'))
     st.draws['prove_ok#%d' % ex.fresh] = c
-    return Forks([(c, (Opaque('proof', sys=cs.sys, witness=w, coords=None), NIL), None),
+    def okmut(s2):
+        s2.events.append(('tag', 'prove_ok'))
+    return Forks([(c, (Opaque('proof', sys=cs.sys, witness=w, coords=None), NIL), okmut),
                   (z3.Not(c), (NIL, Iface(-1, Opaque('error', msg=S('constraint not satisfied'), origin=ctx['pos']))), None)])
 
 
@@ -956,3 +966,91 @@ def i_same_mod_r(ex, st, args, ctx):
 
 
 INTRINSICS.update({'verifSameModR': i_same_mod_r})
+
+
+# ------------------------------------------------------------------------------------------ net/http handler environment (C09/C13/C20)
+def i_recorder(ex, st, args, ctx):
+    return Opaque('respwriter')
+
+
+def i_body(ex, st, args, ctx):
+    return Opaque('reqbody')
+
+
+def resp_WriteHeader(ex, st, args, ctx):
+    st.events.append(('WriteHeader', args[1]))
+    return None
+
+
+def resp_Write(ex, st, args, ctx):
+    used('http.ResponseWriter: records WriteHeader/Write; Write succeeds or fails nondeterministically')
+    st.events.append(('Write', args[1]))
+    c = z3.Bool(ex.newsym('write_ok'))
+    return Forks([(c, (ex.zlen(args[1]), NIL), None), (z3.Not(c), (bvval(0, 64), Iface(-1, Opaque('error', msg=S('write failed'), origin=ctx['pos']))), None)])
+
+
+def io_ReadAll(ex, st, args, ctx):
+    used('io.ReadAll: returns an arbitrary byte string or an error')
+    c = z3.Bool(ex.newsym('readall_ok'))
+    o = st.alloc(Opaque('bodybytes'))
+
+    def bad(s2):
+        s2.events.append(('tag', 'readall_error'))
+        return (NIL, Iface(-1, Opaque('error', msg=S('read error'), origin=ctx['pos'])))
+    return Forks([(c, (Slice(o, 0, z3.BitVec(ex.newsym('bodylen'), 64), 0), NIL), None), (z3.Not(c), bad, None)])
+
+
+def i_happened(ex, st, args, ctx):
+    tag = name_of(args[0])
+    if tag.startswith('call:'):
+        return z3.BoolVal(any(e[0] == 'call' and e[1].endswith(tag[5:]) for e in st.events))
+    if tag == 'prove_ok':
+        return z3.BoolVal(any(e[0] == 'tag' and e[1] == 'prove_ok' for e in st.events))
+    return z3.BoolVal(any(e[0] == 'tag' and e[1] == tag for e in st.events))
+
+
+def i_resp_header_count(ex, st, args, ctx):
+    return bvval(len([e for e in st.events if e[0] == 'WriteHeader']), 64)
+
+
+def i_resp_status(ex, st, args, ctx):
+    hs = [e for e in st.events if e[0] == 'WriteHeader']
+    if not hs:
+        return bvval(0, 64)
+    return hs[0][1]
+
+
+def i_resp_write_count(ex, st, args, ctx):
+    return bvval(len([e for e in st.events if e[0] == 'Write']), 64)
+
+
+def _last_body(st):
+    ws = [e for e in st.events if e[0] == 'Write']
+    if not ws:
+        return None
+    s_ = ws[-1][1]
+    if isinstance(s_, Slice) and s_.obj is not None and not isinstance(s_.obj, tuple):
+        return st.heap.get(s_.obj)
+    return None
+
+
+def i_resp_body_is_error(ex, st, args, ctx):
+    code = name_of(args[0])
+    doc = _last_body(st)
+    if not isinstance(doc, JsonDoc) or not isinstance(doc.value, MapVal):
+        return z3.BoolVal(False)
+    for k, v in doc.value.items:
+        kz = z3.simplify(k.z)
+        if z3.is_string_value(kz) and kz.as_string() == 'code':
+            return z3.simplify(v.z == z3.StringVal(code))
+    return z3.BoolVal(False)
+
+
+def i_resp_body_is_proof(ex, st, args, ctx):
+    doc = _last_body(st)
+    return z3.BoolVal(isinstance(doc, JsonDoc) and ex.tname(doc.tid).endswith('prover.ProofJSON'))
+
+
+INTRINSICS.update({'verifRecorder': i_recorder, 'verifBody': i_body, 'verifHappened': i_happened, 'verifRespHeaderCount': i_resp_header_count, 'verifRespStatus': i_resp_status,
+                   'verifRespWriteCount': i_resp_write_count, 'verifRespBodyIsError': i_resp_body_is_error, 'verifRespBodyIsProof': i_resp_body_is_proof})
+BASE.update({'opaque:respwriter.WriteHeader': resp_WriteHeader, 'opaque:respwriter.Write': resp_Write, 'io.ReadAll': io_ReadAll})
